@@ -221,6 +221,7 @@ fn hex_shape<const L: usize>() {
 inst1!(c02_hex_shape_l3, hex_shape, 3, 8, stubbed);
 // HV: {"name": "c02_hex_shape_l4", "prop": "C02", "kernel": "lex_hex_number", "bound": "every text of 4 chars (any Unicode scalar)", "fns": ["harper_core::lexing::lex_hex_number"], "cost": 4, "stubbing": true, "stubs": ["core::unicode::unicode_data::{alphabetic,n}::lookup -> arbitrary bool", "unicode_script::get_script -> arbitrary of {Latin, non-Latin, unknown}"]}
 inst1!(c02_hex_shape_l4, hex_shape, 4, 9, stubbed);
+// (not admitted: c02_hex_shape_l5 - out of memory under the 14 GB cap; 5-character hex texts are covered by mirsym_hex_mixed_3)
 // HV: {"name": "c02_hex_shape_l6", "prop": "C02", "tier": "thorough", "kernel": "lex_hex_number", "bound": "every text of 6 chars (any Unicode scalar)", "fns": ["harper_core::lexing::lex_hex_number"], "cost": 8, "stubbing": true, "stubs": ["core::unicode::unicode_data::{alphabetic,n}::lookup -> arbitrary bool", "unicode_script::get_script -> arbitrary of {Latin, non-Latin, unknown}"]}
 inst1!(c02_hex_shape_l6, hex_shape, 6, 11, stubbed);
 
